@@ -532,7 +532,7 @@ func (c *Ctx) checkRandomFrame() {
 		}
 	}
 	L.Floor("random-frame", 12, "row stores of six operations")
-	c.checkAlphabetConsts("alphabet-table", map[string]bool{"(*align).Mutate": true})
+	c.checkAlphabetConsts("alphabet-table", c.withHelperDecls("align", "*align", "Mutate"))
 	L.Rule("alphabet-table", "the residue table used by Mutate is the one of the alignment's alphabet")
 	L.Floor("alphabet-table", 2, "both residue tables are used in Mutate")
 
